@@ -55,7 +55,7 @@ def breakpoints(fmt):
   return br
 
 
-def one_config(run, cls, kw, rng, idx):
+def one_config(run, cls, kw, rng, idx, elementwise=False):
   fmt = lattice.fixed_format(cls, kw)
   cfg = qz.cfg_str(cls, kw)
   q = qz.make(cls, kw)
@@ -84,6 +84,33 @@ def one_config(run, cls, kw, rng, idx):
     run.add("%03d_code" % idx, ir.build_smt(tr.b, dom + [code_violation(o, fmt)]), meta=meta)
   run.add_twin("%03d_code" % idx, ir.build_smt(tr.b, dom + [ir.L("(= {0} {0})", o)]), meta=meta)
   run.configs.append(cfg)
+  # element-wise lifting: on tensors of rank 1..3 every output element is the *same term* as the scalar graph applied to
+  # that element (decided by hash-consing in one term store; no solver).  Together with the scalar obligation this covers
+  # tensors of every traced rank.
+  if elementwise:
+    for shp in ((2,), (1, 2), (2, 1, 1)):
+      bt = ir.Builder()
+      tt = qz.Traced(q, shp, builder=bt)
+      ok_all = True
+      for pos in np.ndindex(*shp):
+        ts = qz.Traced(q, (), name=tt.X[pos].attr, builder=bt)
+        if ts.outs()[0] is not tt.out[pos]:
+          ok_all = False
+      ob = harness.solve.Obligation("%s_%03d_elementwise_%s" % (PROP, idx, "x".join(map(str, shp))), "(structural) tensor graph = scalar graph per element",
+                                    meta=dict(meta, clause="elementwise", shape=list(shp), by="hash-consing"))
+      ob.result = harness.solve.Result("unsat" if ok_all else "unknown", {}, 0.0, "hash-consing")
+      run.obls.append(ob)
+      if not ok_all:
+        # not an alarm by itself (a refactor may build a differently shaped but equivalent graph): fall back to concrete agreement
+        import tensorflow as tf
+        xs = (rng.randn(*shp) * float(fmt["step"] * max(4, fmt["hi"]))).astype(np.float32)
+        full = np.asarray(q(tf.constant(xs)))
+        per = np.array([np.asarray(q(tf.constant(v))).reshape(-1)[0] for v in xs.reshape(-1)]).reshape(shp)
+        if not np.array_equal(full, per):
+          run.violation(sig_of(cls, kw, "elementwise"), dict(cfg=cfg, shape=list(shp), x=xs.tolist(), tensor_out=full.tolist(), scalar_out=per.tolist()),
+                        dict(cls=cls, kw=kw, clause="elementwise", x=xs.tolist()))
+        else:
+          run.inconclusive_("%s: tensor graph of shape %s is not term-identical to the scalar graph (concrete agreement only)" % (cfg, shp))
   # min()/max(): implied by the code clause when the format extremes are inside [min,max]
   qmin, qmax = float(np.asarray(q.min())), float(np.asarray(q.max()))
   flo, fhi = float(fmt["lo"] * fmt["step"]), float(fmt["hi"] * fmt["step"])
@@ -150,6 +177,11 @@ def replay_concrete(rep):
   cls, kw = rep["cls"], rep["kw"]
   fmt = lattice.fixed_format(cls, kw)
   q = qz.make(cls, kw)
+  if rep["clause"] == "elementwise":
+    xs = np.asarray(rep["x"], dtype=np.float32)
+    full = np.asarray(q(tf.constant(xs)))
+    per = np.array([np.asarray(q(tf.constant(v))).reshape(-1)[0] for v in xs.reshape(-1)]).reshape(xs.shape)
+    return (not np.array_equal(full, per)), dict(tensor_out=full.tolist(), scalar_out=per.tolist())
   if rep["clause"] in ("range", "range_fixed_point"):
     codes = fmt.get("only") or range(fmt["lo"], fmt["hi"] + 1)
     want = sorted(float(c * fmt["step"]) for c in codes)
@@ -188,13 +220,17 @@ def run(tier, seed):
   r.bounds = ["configuration lattice enumerated (%d configurations this run); per configuration the input is one symbolic float32 "
               "(all 2^32 bit patterns minus NaN/Inf/subnormals, |x| < 2^24 steps)" % len(cfgs),
               "constant scales restricted to powers of two; leaky slopes with slope*2^bits >= 1; relu upper bounds that are codes",
-              "element-wise application to tensors of rank >= 1 is not re-proved here (see C11/C13 for layer-level use)"]
+              "tensors: ranks 1..3 are covered by term identity of the traced tensor graph with the scalar graph per element (all configurations in the "
+              "thorough tier; one per class plus every constant-scale configuration in the quick tier)"]
   r.assumptions = ["TF CPU kernels: IEEE binary32 RNE with FTZ/DAZ (validated on this run at %s points against the real kernels)",
                    "Tanh/Sigmoid kernels (use_real_* variants): contract stub - value in range, NaN iff argument NaN",
                    "subnormal inputs outside the claim"]
+  seen_cls = set()
   for i, (cls, kw) in enumerate(cfgs):
     try:
-      one_config(r, cls, kw, rng, i)
+      ew = tier == "thorough" or cls not in seen_cls or kw.get("alpha") is not None
+      seen_cls.add(cls)
+      one_config(r, cls, kw, rng, i, elementwise=ew)
     except tfg.Unsupported as e:
       r.inconclusive_("cannot translate %s: %s" % (qz.cfg_str(cls, kw), e))
   r.discharge()
